@@ -1184,9 +1184,41 @@ fn big_angle(s: &St) -> bool {
     }
 }
 
+/// states of moderate size: no NaN / infinite / huge component (differences and squares cannot overflow), rotations
+/// given by unit quaternions
+fn tame(s: &St) -> bool {
+    match s {
+        St::Rv(v) => v.iter().all(|x| x.is_finite() && x.abs() < 1e100),
+        St::So2(v) => v.is_finite() && v.abs() < 1e6,
+        St::So3(q) => q.iter().all(|x| x.is_finite()) && (q.iter().map(|x| x * x).sum::<f64>().sqrt() - 1.0).abs() < 1e-9,
+        St::C(l) => l.iter().all(tame),
+    }
+}
+
 pub fn oracle_metric(sp: &Sp, real: &RealSp, a: &St, b: &St, c: &St, out: &mut Vec<Finding>) {
     if big_angle(a) || big_angle(b) || big_angle(c) {
         return;
+    }
+    // a distance between states of moderate size (no NaN / infinite / huge component; rotations given by unit
+    // quaternions) is a number: NaN is a failure of every metric law at once
+    fn tame_weights(sp: &Sp) -> bool {
+        match sp {
+            Sp::Cs(s) => s.iter().all(|(x, w)| w.is_finite() && tame_weights(x)),
+            Sp::Se2 { w, .. } | Sp::Se3 { w, .. } => w.is_finite(),
+            _ => true,
+        }
+    }
+    if tame(a) && tame(b) && tame_weights(sp) {
+        for (x, y) in [(a, b), (a, a), (b, b)] {
+            if let Some(R::Ok(d)) = op_dist(real, x, y) {
+                if d.is_nan() {
+                    out.push(finding("C09", "distance_nan", format!("{sp:?}: d({x:?}, {y:?}) is NaN")));
+                    // seen from PRM: `distance < connection_radius` is false for NaN, so a milestone at (true)
+                    // distance 0 from the start or from another milestone is neither connected nor linked
+                    out.push(finding("C18", "radius_test_undefined", format!("{sp:?}: d({x:?}, {y:?}) is NaN, so the test `distance < connection_radius` fails for states that are within any radius of each other")));
+                }
+            }
+        }
     }
     let (Some(dab), Some(dba), Some(dbc), Some(dac), Some(daa)) = (
         okf(op_dist(real, a, b)),
@@ -1257,6 +1289,17 @@ pub fn oracle_interp(sp: &Sp, real: &RealSp, a: &St, b: &St, t: f64, out: &mut V
         return;
     }
     let Some(R::Ok(r)) = op_interp(real, a, b, t, a) else { return };
+    // interpolating between finite canonical states (unit quaternions) gives a state, not NaNs - also for q and -q
+    {
+        let fin = |s: &St| st_bits(s).iter().all(|x| f64::from_bits(*x).is_finite());
+        if tame(a) && tame(b) && canonical(sp, a) && canonical(sp, b) && !fin(&r) {
+            let what = format!("{sp:?}: interpolate({a:?}, {b:?}, {t}) = {r:?}");
+            out.push(finding("C10", "result_not_finite", what.clone()));
+            out.push(finding("C16", "steer_result_not_finite", what.clone()));
+            out.push(finding("C05", "steer_result_not_finite", what.clone()));
+            out.push(finding("C03", "interpolation_not_finite", what));
+        }
+    }
     let Some(dab) = okf(op_dist(real, a, b)) else { return };
     let (Some(dar), Some(drb)) = (okf(op_dist(real, a, &r)), okf(op_dist(real, &r, b))) else { return };
     // rounding of from + (to - from) * t is relative to the size of the coordinates, not to d(a, b)
@@ -1279,6 +1322,9 @@ pub fn oracle_interp(sp: &Sp, real: &RealSp, a: &St, b: &St, t: f64, out: &mut V
     // the same law seen from the planners: the steering step interpolate(near, sample, max/d) must land max away from
     // `near` (C05), and the states check_motion samples at k/n must be d/n apart (C03) - an interpolated state that is
     // farther along than its parameter says breaks both
+    if dar - t * dab > tl || (t * dab - dar > tl && dab > 0.0) {
+        out.push(finding("C16", "steer_not_on_shortest_path", format!("{sp:?}: the state a step of length {} from a towards b is {dar} away from a (a = {a:?}, b = {b:?}, t = {t})", t * dab)));
+    }
     if dar - t * dab > tl {
         out.push(finding("C05", "steer_overshoot", format!("{sp:?}: a step of length {} from a towards b lands {dar} away from a (a = {a:?}, b = {b:?}, t = {t})", t * dab)));
     }
